@@ -13,10 +13,9 @@ the correspondence run of `harness/props/c19.py`).  Core Lean only.
 * `save_load_roundtrip`     `load (save m) = m` as a mapping, for names/values the file format can carry
 * `classify_newline`, `load_coercion`, `load_lines`   what `loadparameters` + `dumbtypecheck` do to a file
 
-Where the Python raises inside `dumbtypecheck` (`OverflowError` for integer strings with |n| ≥ 2^1024 − 2^970,
-see `Params.classify`) the mapping is left half-coerced; `refines_dict` carries the guard "no such raise in the
-history" as a hypothesis instead of totalising.  `AssertionError` (set_varylist, set_variable_values) leaves the
-object unchanged and is part of the specification `astep`.
+`dumbtypecheck` never raises (since the repair of the `OverflowError` on integer literals beyond the float range, such a
+literal is kept as the int), so `refines_dict` is unconditional.  `AssertionError` (set_varylist, set_variable_values)
+leaves the object unchanged and is part of the specification `astep`.
 -/
 set_option linter.unusedVariables false
 set_option linter.unusedSimpArgs false
@@ -81,11 +80,8 @@ def write (m : Map) (kw : Str) (v : Val) : Map := fun k => if kw = k then some v
 /-- successive assignments, in list order (`d.update`, `zip` loop) -/
 def writeMany (m : Map) (kvs : List (Str × Val)) : Map := kvs.foldl (fun m kv => write m kv.1 kv.2) m
 
-/-- what `dumbtypecheck` makes of a value when it does not raise -/
-def coerceTotal (v : Val) : Val := (coerceVal v).getD v
-
 /-- `dumbtypecheck`: every value of the mapping is coerced -/
-def coerceAll (m : Map) : Map := fun k => (m k).map coerceTotal
+def coerceAll (m : Map) : Map := fun k => (m k).map coerceVal
 
 /-- `update_yourself`: existing keys take the value of the attribute of the same name, if there is one -/
 def copyAttrs (m : Map) (obj : List (Str × Val)) : Map := fun k =>
@@ -142,19 +138,9 @@ private theorem sim_setMany (ps : List (Str × Val)) (m : Map) (kvs : List (Str 
     intro k'
     simp [lookup_setKV, write, h]
 
-private theorem dumbList_lookup (k : Str) (l : List (Str × Val)) (h : (dumbList l).2 = false) :
-    lookup k (dumbList l).1 = (lookup k l).map coerceTotal := by
-  induction l with
-  | nil => simp [dumbList, lookup]
-  | cons hd t ih =>
-    obtain ⟨k0, v0⟩ := hd
-    cases hc : coerceVal v0 with
-    | none => simp [dumbList, hc] at h
-    | some v' =>
-      simp only [dumbList, hc] at h ⊢
-      by_cases h2 : k0 = k
-      · simp [lookup, h2, coerceTotal, hc]
-      · simp [lookup, h2, ih h]
+private theorem dumbList_lookup (k : Str) (l : List (Str × Val)) :
+    lookup k (dumbList l) = (lookup k l).map coerceVal :=
+  lookup_map_val (fun _ v => coerceVal v) k l
 
 private theorem loadLines_eq (ps : List (Str × Val)) (text : Str) :
     loadLines ps text = setMany ps (loadPairs text) := by
@@ -194,29 +180,19 @@ private theorem sim_set (s : State) (a : AState) (h : R s a) (name : Str) (value
   obtain ⟨h1, h2, h3⟩ := h
   exact ⟨fun k => by simp [step, astep, lookup_setKV, write, h1], h2, h3⟩
 
-private theorem sim_setParameters (s : State) (a : AState) (h : R s a) (d : List (Str × Val))
-    (hno : (step s (.setParameters d)).2 ≠ some .overflow) :
+private theorem sim_setParameters (s : State) (a : AState) (h : R s a) (d : List (Str × Val)) :
     R (step s (.setParameters d)).1 (astep a (.setParameters d)) := by
   obtain ⟨h1, h2, h3⟩ := h
-  have hf : (dumbList (setMany s.params d)).2 = false := by
-    cases hb : (dumbList (setMany s.params d)).2 with
-    | false => rfl
-    | true => simp [step, hb] at hno
   refine ⟨fun k => ?_, h2, h3⟩
   simp only [step, astep, coerceAll]
-  rw [dumbList_lookup k _ hf, sim_setMany _ _ _ h1]
+  rw [dumbList_lookup k _, sim_setMany _ _ _ h1]
 
-private theorem sim_load (s : State) (a : AState) (h : R s a) (text : Str)
-    (hno : (step s (.load text)).2 ≠ some .overflow) :
+private theorem sim_load (s : State) (a : AState) (h : R s a) (text : Str) :
     R (step s (.load text)).1 (astep a (.load text)) := by
   obtain ⟨h1, h2, h3⟩ := h
-  have hf : (dumbList (loadLines s.params text)).2 = false := by
-    cases hb : (dumbList (loadLines s.params text)).2 with
-    | false => rfl
-    | true => simp [step, hb] at hno
   refine ⟨fun k => ?_, h2, h3⟩
   simp only [step, astep, coerceAll]
-  rw [dumbList_lookup k _ hf, loadLines_eq, sim_setMany _ _ _ h1]
+  rw [dumbList_lookup k _, loadLines_eq, sim_setMany _ _ _ h1]
 
 private theorem sim_setVarylist (s : State) (a : AState) (h : R s a) (vl : List Str) :
     R (step s (.setVarylist vl)).1 (astep a (.setVarylist vl)) := by
@@ -260,36 +236,34 @@ private theorem sim_updateYourself (s : State) (a : AState) (h : R s a) (obj : L
   refine (lookup_map_val (fun k v => match lookup k obj with | some w => w | none => v) k s.params).trans ?_
   rw [h1]
 
-private theorem sim_step (s : State) (a : AState) (h : R s a) (o : Op) (hno : (step s o).2 ≠ some .overflow) :
+private theorem sim_step (s : State) (a : AState) (h : R s a) (o : Op) :
     R (step s o).1 (astep a o) := by
   cases o with
   | addpar n v a b st => exact sim_addpar s _ h n v a b st
   | set n v => exact sim_set s _ h n v
-  | setParameters d => exact sim_setParameters s _ h d hno
+  | setParameters d => exact sim_setParameters s _ h d
   | setVarylist vl => exact sim_setVarylist s _ h vl
   | setVariableValues vs => exact sim_setVariableValues s _ h vs
   | updateOther obj => exact sim_updateOther s _ h obj
   | updateYourself obj => exact sim_updateYourself s _ h obj
-  | load t => exact sim_load s _ h t hno
+  | load t => exact sim_load s _ h t
 
-private theorem sim_run (ops : List Op) (s : State) (a : AState) (h : R s a)
-    (hno : some Err.overflow ∉ (run s ops).2) : R (run s ops).1 (arun a ops) := by
+private theorem sim_run (ops : List Op) (s : State) (a : AState) (h : R s a) : R (run s ops).1 (arun a ops) := by
   induction ops generalizing s a with
   | nil => exact h
-  | cons o os ih =>
-    simp only [run, List.mem_cons, not_or] at hno
-    exact ih _ _ (sim_step s a h o (fun e => hno.1 e.symm)) hno.2
+  | cons o os ih => exact ih _ _ (sim_step s a h o)
 
-/-- After any history of calls in which `dumbtypecheck` did not raise `OverflowError`, `get` and
-    `get_parameters` of the object are those of the plain dictionary stepped by `astep` (last write wins;
-    `set_parameters`/`load` write, then coerce every string value), and varylist / variable_list agree. -/
-theorem refines_dict (ops : List Op) (hno : some Err.overflow ∉ (run init ops).2) :
+/-- After ANY history of calls, `get` and `get_parameters` of the object are those of the plain dictionary stepped
+    by `astep` (last write wins; `set_parameters`/`load` write, then coerce every string value), and varylist /
+    variable_list agree. -/
+theorem refines_dict (ops : List Op) :
     (∀ k, get (run init ops).1 k = (arun ainit ops).map k) ∧
     (∀ k, lookup k (getParameters (run init ops).1) = (arun ainit ops).map k) ∧
     (run init ops).1.varylist = (arun ainit ops).varylist ∧
     (run init ops).1.variableList = (arun ainit ops).variableList := by
-  have h := sim_run ops init ainit ⟨fun k => rfl, rfl, rfl⟩ hno
+  have h := sim_run ops init ainit ⟨fun k => rfl, rfl, rfl⟩
   exact ⟨h.1, h.1, h.2.1, h.2.2⟩
+
 /-! ### keys never disappear; varylist ⊆ keys -/
 
 private theorem isSome_setKV {α : Type} (k kw : Str) (v : α) (l : List (Str × α)) (h : (lookup k l).isSome = true) :
@@ -303,16 +277,8 @@ private theorem isSome_setMany (k : Str) (ps kvs : List (Str × Val)) (h : (look
   | cons kv t ih => exact ih _ (isSome_setKV k kv.1 kv.2 ps h)
 
 private theorem isSome_dumbList (k : Str) (l : List (Str × Val)) :
-    (lookup k (dumbList l).1).isSome = (lookup k l).isSome := by
-  induction l with
-  | nil => rfl
-  | cons hd t ih =>
-    obtain ⟨k0, v0⟩ := hd
-    cases hc : coerceVal v0 with
-    | none => simp [dumbList, hc]
-    | some v' =>
-      simp only [dumbList, hc]
-      by_cases h2 : k0 = k <;> simp [lookup, h2, ih]
+    (lookup k (dumbList l)).isSome = (lookup k l).isSome := by
+  rw [dumbList_lookup]; simp
 
 private theorem isSome_step (k : Str) (s : State) (o : Op) (h : (lookup k s.params).isSome = true) :
     (lookup k (step s o).1.params).isSome = true := by
@@ -556,11 +522,11 @@ private theorem showInt_cores (n : Int) :
     · simp only [floatCore, deUnderscore_id _ hu, splitSign]
       simp [floatBody_digits _ h0 hd]
 
-/-- `int(str(n)) == n`, `float(str(n))` succeeds, hence `dumbtypecheck` gives back the int (below the overflow bound) -/
-private theorem classify_showInt (n : Int) (h : n.natAbs < ovfBound) : classify (showInt n) = .int n := by
+/-- `int(str(n)) == n` and `float(str(n))` succeeds, hence `dumbtypecheck` gives back the int, whatever its size -/
+private theorem classify_showInt (n : Int) : classify (showInt n) = .int n := by
   have hs : strip isFloatSpace (showInt n) = showInt n :=
     strip_id _ _ (fun c hc => isFloatSpace_of_not_strSpace c (showInt_noSpace n c hc))
-  simp [classify, pyFloat, pyInt, hs, (showInt_cores n).1, (showInt_cores n).2, h]
+  simp [classify, pyFloat, pyInt, hs, (showInt_cores n).1, (showInt_cores n).2]
 
 /-- a trailing newline (the one `readlines` leaves on the value) does not change the classification -/
 theorem classify_newline (s : Str) : classify (s ++ ['\n']) = classify s := by
@@ -576,14 +542,13 @@ def NoSpace (l : Str) : Prop := ∀ c ∈ l, isStrSpace c = false
 def GoodKey (k : Str) : Prop := ∀ c ∈ k, c ≠ ' ' ∧ c ≠ '\n' ∧ c ≠ '\r' ∧ c ≠ '-'
 
 /-- a value that the file format can carry.
-    * int: below the bound where `dumbtypecheck` itself raises `OverflowError` (|n| < 2^1024 − 2^970);
-      `int(str(n)) = n` is PROVED for the model's recogniser, not assumed.
+    * int: every int, of any size; `int(str(n)) = n` is PROVED for the model's recogniser, not assumed.
     * float token `t` (= `repr(x)`): HYPOTHESIS = CPython's repr round-trip guarantee, in the token model:
       `repr(x)` contains no whitespace, is accepted by `float()` giving back the same float (`classify t = flt t`
       says: float() accepts it with canonical token `t` itself, and int() rejects it).
     * string: free of whitespace and not accepted by `float()` ("non-numeric"). -/
 def GoodVal : Val → Prop
-  | .int n => n.natAbs < ovfBound
+  | .int _ => True
   | .flt t => NoSpace t ∧ classify t = .flt t
   | .str s => NoSpace s ∧ pyFloat s = none
 
@@ -596,9 +561,9 @@ private theorem showVal_noSpace (v : Val) (h : GoodVal v) : NoSpace (showVal v) 
   | flt t => exact h.1
   | str s => exact h.1
 
-private theorem coerce_show (v : Val) (h : GoodVal v) : coerceVal (.str (showVal v ++ ['\n'])) = some v := by
+private theorem coerce_show (v : Val) (h : GoodVal v) : coerceVal (.str (showVal v ++ ['\n'])) = v := by
   cases v with
-  | int n => simp [coerceVal, classify_newline, showVal, classify_showInt n h]
+  | int n => simp [coerceVal, classify_newline, showVal, classify_showInt n]
   | flt t => simp [coerceVal, classify_newline, showVal, h.2]
   | str s =>
     have : classify s = .text s := by
@@ -738,47 +703,6 @@ private theorem mem_saveLines (kv : Str × Val) (ps : List (Str × Val)) :
   · intro h
     refine ⟨kv.1, (lookup_isSome_iff _ _).mp (by simp [h]), by simp [h]⟩
 
-private theorem mem_setKV {α : Type} (x : Str × α) (k : Str) (v : α) (l : List (Str × α)) (h : x ∈ setKV k v l) :
-    x.2 = v ∨ x ∈ l := by
-  induction l with
-  | nil => simp [setKV] at h; simp [h]
-  | cons hd t ih =>
-    obtain ⟨k0, v0⟩ := hd
-    simp only [setKV] at h
-    split at h
-    · simp only [List.mem_cons] at h
-      rcases h with h | h
-      · simp [h]
-      · exact Or.inr (List.mem_cons_of_mem _ h)
-    · simp only [List.mem_cons] at h
-      rcases h with h | h
-      · exact Or.inr (h ▸ List.mem_cons_self ..)
-      · rcases ih h with h | h
-        · exact Or.inl h
-        · exact Or.inr (List.mem_cons_of_mem _ h)
-
-private theorem mem_setMany (x : Str × Val) (ps kvs : List (Str × Val)) (h : x ∈ setMany ps kvs) :
-    x ∈ ps ∨ ∃ kv ∈ kvs, x.2 = kv.2 := by
-  induction kvs generalizing ps with
-  | nil => exact Or.inl h
-  | cons kv t ih =>
-    rcases ih (setKV kv.1 kv.2 ps) h with h | ⟨y, hy, e⟩
-    · rcases mem_setKV x _ _ _ h with h | h
-      · exact Or.inr ⟨kv, List.mem_cons_self .., h⟩
-      · exact Or.inl h
-    · exact Or.inr ⟨y, List.mem_cons_of_mem _ hy, e⟩
-
-private theorem dumbList_ok (l : List (Str × Val)) (h : ∀ x ∈ l, (coerceVal x.2).isSome = true) :
-    (dumbList l).2 = false := by
-  induction l with
-  | nil => rfl
-  | cons hd t ih =>
-    obtain ⟨k0, v0⟩ := hd
-    have h0 := h (k0, v0) (List.mem_cons_self ..)
-    cases hc : coerceVal v0 with
-    | none => simp [hc] at h0
-    | some v' => simp only [dumbList, hc]; exact ih (fun x hx => h x (List.mem_cons_of_mem _ hx))
-
 /-- successive assignments of pairs that all agree with one function `f`: the result reads `f` on the assigned keys -/
 private theorem lookup_setMany_fun (f : Str → Option Val) (k : Str) (ps kvs : List (Str × Val))
     (h : ∀ kv ∈ kvs, f kv.1 = some kv.2) :
@@ -796,8 +720,8 @@ private theorem lookup_setMany_fun (f : Str → Option Val) (k : Str) (ps kvs : 
       · have : ¬ k = kv.1 := fun e => h2 e.symm
         simp [h1, h2, this]
 
-/-- Saving an object whose names are free of blank / line break / hyphen and whose values are ints (below the
-    OverflowError bound), float tokens with the repr round-trip property, or whitespace-free non-numeric strings,
+/-- Saving an object whose names are free of blank / line break / hyphen and whose values are ints (of any size),
+    float tokens with the repr round-trip property, or whitespace-free non-numeric strings,
     and loading the file into a fresh object, raises nothing and gives back the same name → value mapping. -/
 theorem save_load_roundtrip (st : State)
     (hk : ∀ kv ∈ st.params, GoodKey kv.1) (hv : ∀ kv ∈ st.params, GoodVal kv.2) :
@@ -809,18 +733,9 @@ theorem save_load_roundtrip (st : State)
     exact ⟨hk _ this, hv _ this⟩
   have hl : loadLines init.params (saveText st) = setMany [] ((saveLines st.params).map fun kv => (kv.1, G kv.2)) := by
     rw [loadLines_eq, saveText, loadPairs_render _ hgood]; rfl
-  have hsome : ∀ x ∈ setMany [] ((saveLines st.params).map fun kv => (kv.1, G kv.2)), (coerceVal x.2).isSome = true := by
-    intro x hx
-    rcases mem_setMany x _ _ hx with h | ⟨y, hy, e⟩
-    · simp at h
-    · obtain ⟨kv, hkv, rfl⟩ := List.mem_map.mp hy
-      simp only at e
-      rw [e]
-      simp [G, coerce_show _ (hgood kv hkv).2]
-  have hf := dumbList_ok _ hsome
-  refine ⟨by simp [step, hl, hf], fun k => ?_⟩
+  refine ⟨rfl, fun k => ?_⟩
   simp only [step, Params.get, hl]
-  rw [dumbList_lookup k _ hf,
+  rw [dumbList_lookup k _,
     lookup_setMany_fun (fun k => (lookup k st.params).map G) k []]
   · cases hlk : lookup k st.params with
     | none =>
@@ -837,7 +752,7 @@ theorem save_load_roundtrip (st : State)
         simp only [List.map_map, List.mem_map, Function.comp]
         exact ⟨(k, v), hm, rfl⟩
       rw [if_pos this]
-      simp [hlk, coerceTotal, G, coerce_show v (hgood _ hm).2]
+      simp [hlk, G, coerce_show v (hgood _ hm).2]
   · intro kv hkv
     obtain ⟨x, hx, rfl⟩ := List.mem_map.mp hkv
     simp [(mem_saveLines x _).mp hx]
@@ -855,19 +770,16 @@ private theorem float_of_int (s : Str) (n : Int) (h : intCore s = some n) : ∃ 
     · simp at h
 
 /-- `dumbtypecheck` on one string value `s` (on load: the text after the blank, including its line break):
-    int when `int(s)` succeeds (it raises `OverflowError` instead when |n| ≥ 2^1024 − 2^970), else float when
-    `float(s)` succeeds, else the string stripped of surrounding whitespace. -/
+    int whenever `int(s)` succeeds (whatever the size of the integer), else float when `float(s)` succeeds, else the
+    string stripped of surrounding whitespace; ints and floats are left alone. -/
 theorem load_coercion (s : Str) :
-    (∀ n, pyInt s = some n → n.natAbs < ovfBound → coerceVal (.str s) = some (.int n)) ∧
-    (∀ n, pyInt s = some n → ¬ n.natAbs < ovfBound → coerceVal (.str s) = none) ∧
-    (∀ tok, pyInt s = none → pyFloat s = some tok → coerceVal (.str s) = some (.flt tok)) ∧
-    (pyFloat s = none → coerceVal (.str s) = some (.str (strip isStrSpace s))) ∧
-    (∀ v, v ≠ Val.str s → (∀ t, v ≠ Val.str t) → coerceVal v = some v) := by
-  refine ⟨fun n hi hb => ?_, fun n hi hb => ?_, fun tok hi hf => ?_, fun hf => ?_, fun v _ hv => ?_⟩
+    (∀ n, pyInt s = some n → coerceVal (.str s) = .int n) ∧
+    (∀ tok, pyInt s = none → pyFloat s = some tok → coerceVal (.str s) = .flt tok) ∧
+    (pyFloat s = none → coerceVal (.str s) = .str (strip isStrSpace s)) ∧
+    (∀ v, (∀ t, v ≠ Val.str t) → coerceVal v = v) := by
+  refine ⟨fun n hi => ?_, fun tok hi hf => ?_, fun hf => ?_, fun v hv => ?_⟩
   · obtain ⟨tok, ht⟩ := float_of_int _ n hi
-    simp [coerceVal, classify, pyFloat, ht, hi, hb]
-  · obtain ⟨tok, ht⟩ := float_of_int _ n hi
-    simp [coerceVal, classify, pyFloat, ht, hi, hb]
+    simp [coerceVal, classify, pyFloat, ht, hi]
   · simp [coerceVal, classify, hf, hi]
   · simp [coerceVal, classify, hf]
   · cases v with
@@ -879,7 +791,7 @@ theorem load_coercion (s : Str) :
     two fields assigns `name.replace("-","_") := value` (a string, line break included), in file order; all other
     lines are skipped; then `dumbtypecheck` runs over the whole mapping. Names never keep a hyphen. -/
 theorem load_lines (st : State) (text : Str) :
-    (step st (.load text)).1.params = (dumbList (setMany st.params (loadPairs text))).1 ∧
+    (step st (.load text)).1.params = dumbList (setMany st.params (loadPairs text)) ∧
     (∀ line name value, splitSp line = [name, value] → lineKV line = some (fixName name, .str value)) ∧
     (∀ line, (splitSp line).length ≠ 2 → lineKV line = none) ∧
     (∀ name, '-' ∉ fixName name ∧ (fixName name).length = name.length ∧ ('-' ∉ name → fixName name = name)) := by
@@ -936,21 +848,18 @@ example : (run init demoOps).1.params =
      (['a', '_', 'b'], .int 123), (['z'], .flt ['i', 'n', 'f']), (['q'], .str ['~'])] := by decide +kernel
 
 example : (run init demoOps).2 =
-    [none, none, none, none, some .assertion, none, some .assertion, none, none, none] := by decide +kernel
+    [none, none, none, none, some .assertion, none, some .assertion, none, none, none] := by decide
 
 example : getVariableValues (run init demoOps).1 = some [.int 9] := by decide
 
-/-- the guard of `refines_dict` holds on the demo history, so the theorem applies to it -/
-example : ∀ k, get (run init demoOps).1 k = (arun ainit demoOps).map k :=
-  (refines_dict demoOps (by decide +kernel)).1
+/-- `refines_dict` on the demo history -/
+example : ∀ k, get (run init demoOps).1 k = (arun ainit demoOps).map k := (refines_dict demoOps).1
 
-/-- the guard is not vacuous: the string `str(2^1024)` makes `dumbtypecheck` raise, and leaves the mapping half-coerced
-    (`a` is coerced, `b` and everything after it is not) -/
-example : classify (showInt (2 ^ 1024)) = .overflow := by decide +kernel
-example :
-    let r := run init [.set ['a'] (.str ['1']), .set ['b'] (.str (showInt (2 ^ 1024))), .set ['c'] (.str ['2']), .setParameters []]
-    r.1.params = [(['a'], .int 1), (['b'], .str (showInt (2 ^ 1024))), (['c'], .str ['2'])] ∧
-    r.2 = [none, none, none, some .overflow] := by decide +kernel
+/-- integer literals beyond 2^53 and beyond the float range stay ints -/
+example : classify (showInt (2 ^ 53 + 1)) = .int 9007199254740993 := by decide +kernel
+example : classify (showInt (2 ^ 1024)) = .int (2 ^ 1024) := by decide +kernel
+example : (run init [.set ['a'] (.str (showInt (-(10 ^ 400)))), .setParameters []]).1.params
+    = [(['a'], .int (-(10 ^ 400)))] := by decide +kernel
 
 /-- the hypotheses of `save_load_roundtrip` are satisfiable on a state with all three value kinds -/
 example :
@@ -963,7 +872,7 @@ example :
   · simp [GoodKey]
   · simp only [List.mem_cons, List.not_mem_nil, or_false]
     rintro kv (rfl | rfl | rfl | rfl)
-    · show (12 : Nat) < ovfBound; decide +kernel
+    · trivial
     · exact ⟨by simp [NoSpace]; decide, by decide⟩
     · exact ⟨by simp [NoSpace]; decide, by decide⟩
     · exact ⟨by simp [NoSpace], by decide⟩
@@ -996,14 +905,8 @@ private theorem nodup_setMany (ps kvs : List (Str × Val)) (h : (ps.map Prod.fst
   | nil => exact h
   | cons kv t ih => exact ih _ (nodup_setKV kv.1 kv.2 ps h)
 
-private theorem keys_dumbList (l : List (Str × Val)) : (dumbList l).1.map Prod.fst = l.map Prod.fst := by
-  induction l with
-  | nil => rfl
-  | cons hd t ih =>
-    obtain ⟨k0, v0⟩ := hd
-    cases hc : coerceVal v0 with
-    | none => simp [dumbList, hc]
-    | some v' => simp [dumbList, hc, ih]
+private theorem keys_dumbList (l : List (Str × Val)) : (dumbList l).map Prod.fst = l.map Prod.fst := by
+  simp [dumbList, Function.comp_def]
 
 private theorem nodup_step (s : State) (o : Op) (h : (s.params.map Prod.fst).Nodup) :
     ((step s o).1.params.map Prod.fst).Nodup := by
